@@ -205,6 +205,93 @@ def explore(res, rng, n):
                                  'input': case, 'impl_output': impl})
 
 
+def containers(res, rng, k):
+    """the four utilities on numpy arrays: (1) a float32 / float16 array holds exact binary64 numbers - the result must be the one for those
+    numbers given as a list of Python floats (a computation kept in the narrow type is not); (2) a float64 array handed over by the caller
+    is the caller's: unchanged by the call, and a second call on it (another gate / resolution) gives what a fresh copy gives"""
+    import numpy as np
+    core.import_impl()
+    from ffpack import utils
+    for it in range(k):
+        n = rng.choice([4, 6, 9, 14])
+        kind = it % 4
+        if kind == 0:
+            vals = [round(rng.uniform(-5, 5), 2) for _ in range(n)]
+        elif kind == 1:
+            vals = [float(rng.randint(-400, 400)) / 8 for _ in range(n)]
+        elif kind == 2:
+            vals = [round(rng.uniform(100, 260), 1) for _ in range(n)]
+        else:
+            vals = [float(40000000 + rng.randint(0, 40)) for _ in range(n)]
+        if len(set(vals)) < 2:
+            continue
+        r1, r2 = rng.choice([(0.1, 0.3), (3.0, 0.7), (0.25, 0.1), (0.05, 2.0)])
+        g1, g2 = rng.choice([(3.0, 1.0), (0.5, 0.2), (10.0, 0.75)])
+        b1 = rng.choice([0.5, 0.1, 2.0])
+        ops = [('sequencePeakValleyFilter', lambda a: utils.sequencePeakValleyFilter(a, True)),
+               ('sequencePeakValleyFilter', lambda a: utils.sequencePeakValleyFilter(a, False)) if n >= 3 else None,
+               ('sequenceHysteresisFilter', lambda a: utils.sequenceHysteresisFilter(a, g1)),
+               ('sequenceHysteresisFilter', lambda a: utils.sequenceHysteresisFilter(a, g2)),
+               ('sequenceDigitization', lambda a: utils.sequenceDigitization(a, r1)),
+               ('sequenceDigitization', lambda a: utils.sequenceDigitization(a, r2))]
+        ops = [o for o in ops if o]
+        # (1) narrow float dtypes
+        for dt in (np.float32, np.float16):
+            arr = np.array(vals, dtype=dt)
+            if not np.all(np.isfinite(arr)):
+                continue
+            exact = [float(v) for v in arr]            # the very numbers the array holds
+            for api, f in ops:
+                res.evaluations += 1
+                res.stat('narrow_float_array_' + dt.__name__)
+                try:
+                    want = f(list(exact))
+                    got = f(np.array(vals, dtype=dt))
+                    got = [float(v) for v in got]
+                    want = [float(v) for v in want]
+                except Exception as e:  # noqa
+                    res.failures.append({'signature': f'C19:{api}:narrow-float:raised:{dt.__name__}:{vals}', 'clause': 'valid %s array raised %s' % (dt.__name__, repr(e)[:80]),
+                                         'api': api, 'input': {'data': exact, 'dtype': dt.__name__}})
+                    continue
+                if got != want:
+                    res.failures.append({'signature': f'C19:{api}:narrow-float:{dt.__name__}:{vals}:{r1}:{g1}',
+                                         'clause': 'the result for a %s array differs from the result for the same numbers as Python floats' % dt.__name__,
+                                         'api': api, 'input': {'data': exact, 'dtype': dt.__name__, 'resolutions': [r1, r2], 'gates': [g1, g2]},
+                                         'impl_output': {'array': got[:8], 'floats': want[:8]}})
+        # (2) the caller's float64 array: unchanged, and usable again
+        arr = np.array(vals, dtype=float)
+        keep = arr.copy()
+        for api, f in ops:
+            res.evaluations += 1
+            res.stat('caller_float64_array')
+            try:
+                got = [float(v) for v in f(arr)]
+                want = [float(v) for v in f(list(vals))]
+            except Exception as e:  # noqa
+                res.failures.append({'signature': f'C19:{api}:caller-array:raised:{vals}', 'clause': 'valid call on an array used before raised ' + repr(e)[:80],
+                                     'api': api, 'input': {'data': vals}})
+                arr = keep.copy()
+                continue
+            same = bool(np.array_equal(arr, keep, equal_nan=False))
+            if not same or got != want:
+                res.failures.append({'signature': f'C19:{api}:caller-array:{vals}:{g1}:{g2}',
+                                     'clause': ('the float64 array of the caller was modified by the call' if not same else
+                                                'a call on an array used in earlier calls differs from the call on a fresh copy'),
+                                     'api': api, 'input': {'data': vals, 'gates': [g1, g2], 'resolutions': [r1, r2]},
+                                     'impl_output': {'array_after': [float(v) for v in arr][:8], 'result': got[:8], 'result_on_fresh_copy': want[:8]}})
+                arr = keep.copy()
+        # aggregation rows as a float64 array
+        rows = np.array([[abs(v), 1.0] for v in vals], dtype=float)
+        keepr = rows.copy()
+        try:
+            utils.cycleCountingAggregation(rows, b1)
+            if not np.array_equal(rows, keepr):
+                res.failures.append({'signature': f'C19:cycleCountingAggregation:caller-array:{vals}', 'clause': 'the float64 array of the caller was modified by the call',
+                                     'api': 'cycleCountingAggregation', 'input': {'rows': keepr.tolist(), 'bin': b1}})
+        except Exception:  # noqa
+            pass
+
+
 def malformed(res):
     core.import_impl()
     from ffpack import utils
@@ -232,6 +319,7 @@ def run(tier, seed):
     core.prove(res, PID, MODULES, clean=(tier == 'thorough'))
     n = 1500 if tier == 'quick' else 40000
     explore(res, random.Random(seed), n)
+    containers(res, random.Random(seed + 13), 24 if tier == 'quick' else 400)
     malformed(res)
     if (res.proof_problems or res.disagreements) and not res.failures:
         explore(res, random.Random(seed + 7919), 4 * n)
